@@ -5,32 +5,32 @@
   Core-only.
 -/
 
-inductive Tree (α : Type) where
-  | nil : Tree α
-  | node (l : Tree α) (v : α) (r : Tree α) : Tree α
+inductive BTree (α : Type) where
+  | nil : BTree α
+  | node (l : BTree α) (v : α) (r : BTree α) : BTree α
   deriving Repr
 
-namespace Tree
+namespace BTree
 variable {α : Type}
 
-def isNil : Tree α → Bool
+def isNil : BTree α → Bool
   | nil => true
   | _ => false
 
-def toList : Tree α → List α
+def toList : BTree α → List α
   | nil => []
   | node l v r => toList l ++ v :: toList r
 
-def size : Tree α → Nat
+def size : BTree α → Nat
   | nil => 0
   | node l _ r => size l + 1 + size r
 
 /-- preorder shape dump used by the thorough correspondence: value + child markers -/
-def shape (f : α → String) : Tree α → String
+def shape (f : α → String) : BTree α → String
   | nil => "."
   | node l v r => "(" ++ shape f l ++ " " ++ f v ++ " " ++ shape f r ++ ")"
 
-end Tree
+end BTree
 
 structure Cmp (α : Type) where
   le : α → α → Bool
@@ -40,17 +40,17 @@ structure Cmp (α : Type) where
 namespace Bst
 variable {α : Type}
 
-def insert (c : Cmp α) (x : α) : Tree α → Tree α
+def insert (c : Cmp α) (x : α) : BTree α → BTree α
   | .nil => .node .nil x .nil
   | .node l v r => if c.le x v then .node (insert c x l) v r else .node l v (insert c x r)
 
 /-- `searchNode` : is there a node equal to `x` on the search path -/
-def contains (c : Cmp α) (x : α) : Tree α → Bool
+def contains (c : Cmp α) (x : α) : BTree α → Bool
   | .nil => false
   | .node l v r => if c.eq x v then true else if c.lt x v then contains c x l else contains c x r
 
 /-- remove the leftmost node: (its value, the remaining tree) -/
-def removeMin : Tree α → Option (α × Tree α)
+def removeMin : BTree α → Option (α × BTree α)
   | .nil => none
   | .node .nil v r => some (v, r)
   | .node (.node ll lv lr) v r =>
@@ -59,7 +59,7 @@ def removeMin : Tree α → Option (α × Tree α)
     | none => none
 
 /-- `removeNode` applied to the root of the given (sub)tree -/
-def removeRoot : Tree α → Tree α
+def removeRoot : BTree α → BTree α
   | .nil => .nil
   | .node .nil _ r => r
   | .node l _ .nil => l
@@ -68,7 +68,7 @@ def removeRoot : Tree α → Tree α
     | some (m, r') => .node l m r'
     | none => .node l v (.node rl rv rr)
 
-def remove (c : Cmp α) (x : α) : Tree α → Tree α × Bool
+def remove (c : Cmp α) (x : α) : BTree α → BTree α × Bool
   | .nil => (.nil, false)
   | .node l v r =>
     if c.eq x v then (removeRoot (.node l v r), true)
@@ -79,18 +79,18 @@ def remove (c : Cmp α) (x : α) : Tree α → Tree α × Bool
       let (r', b) := remove c x r
       (.node l v r', b)
 
-def min? : Tree α → Option α
+def min? : BTree α → Option α
   | .nil => none
   | .node .nil v _ => some v
   | .node (.node ll lv lr) _ _ => min? (.node ll lv lr)
 
-def max? : Tree α → Option α
+def max? : BTree α → Option α
   | .nil => none
   | .node _ v .nil => some v
   | .node _ _ (.node rl rv rr) => max? (.node rl rv rr)
 
 /-- Go `Min()` / `Max()` return `T(0)` on an empty tree -/
-def minD (zero : α) (t : Tree α) : α := (min? t).getD zero
-def maxD (zero : α) (t : Tree α) : α := (max? t).getD zero
+def minD (zero : α) (t : BTree α) : α := (min? t).getD zero
+def maxD (zero : α) (t : BTree α) : α := (max? t).getD zero
 
 end Bst
